@@ -107,7 +107,8 @@ def run_unit(unit, repo, rlimit=30, seed=None, extra=None, tag=''):
             if kind not in ('ensures', 'invariant'):
                 continue
             k += 1
-            ob = Obl(unit, fi.qname, label or ('%s#%d' % (kind, k)), kind, text, fi.props)
+            extra = g.sharedprops.get(label, set()) if label else set()
+            ob = Obl(unit, fi.qname, label or ('%s#%d' % (kind, k)), kind, text, sorted(set(fi.props) | extra))
             ob.lines = (lo, hi)
             obs.append(ob)
         if getattr(fi, 'is_lemma', False):
